@@ -231,7 +231,7 @@ impl World {
         world
     }
     pub fn shared_style(&mut self, name: &str) -> ProgressStyle { self.styles.entry(name.to_string()).or_insert_with(|| style(name)).clone() }
-    fn bar(&self, b: i64) -> Option<&ProgressBar> { self.bars.get(&b).and_then(|v| v.first()) }
+    pub fn bar(&self, b: i64) -> Option<&ProgressBar> { self.bars.get(&b).and_then(|v| v.first()) }
     /// calls decoded from what the real Term wrote to the pty since the last call
     pub fn pty_calls(&mut self) -> Vec<Value> {
         use std::io::Read;
